@@ -87,3 +87,22 @@ Proof.
   destruct (rmslice_spec t a b t' Hwf Hrm Hle) as (Hwf' & _ & _ & _ & Hl).
   pose proof (tc_len_nonneg t' Hwf'). split; [|exact Hl]. lia.
 Qed.
+
+(* the bytes written back after a removal: the prefix, the bytes of the surviving atoms in order,
+   the suffix - so an empty range writes back the source file byte for byte *)
+Lemma rmslice_content : forall t (a b : Z) t', wf t -> rmslice t a b = Ok t' ->
+  py_clamp (tc_len t) a <= py_clamp (tc_len t) b ->
+  content t' = tc_before t ++
+               concat (map fst (spec_rm (py_clamp (tc_len t) a) (py_clamp (tc_len t) b) 0 (zipped t))) ++
+               tc_after t.
+Proof.
+  intros t a b t' Hwf Hrm Hle.
+  destruct (rmslice_spec t a b t' Hwf Hrm Hle) as (Hwf' & Hz & Hb & Ha & _).
+  unfold content. rewrite Hb, Ha, <- Hz, zipped_parts by exact Hwf'. reflexivity.
+Qed.
+
+Lemma rmslice_empty_range_content : forall t (a b : Z) t', wf t -> rmslice t a b = Ok t' ->
+  py_clamp (tc_len t) a = py_clamp (tc_len t) b -> content t' = content t.
+Proof.
+  intros t a b t' Hwf Hrm Heq. rewrite (rmslice_empty_range_id t a b t' Hwf Hrm Heq). reflexivity.
+Qed.
